@@ -16,49 +16,52 @@ def kind_of(res):
     return "other"
 
 
-def sig_of_result(r0, step):
+def tags_of(ev):
+    return ",".join(sorted(set(ev.get("tags") or ["file"])))
+
+
+def sig_of_result(r0, step, ev):
+    """function-level signature for panics; resource exhaustion (time-out, dead worker) is keyed by the
+    faulted tables, because whether an allocation storm ends as a time-out or as an out-of-memory kill,
+    and in which function, depends on the load of the machine"""
     if r0.startswith("panic:"):
         return "pred=Total site=%s kind=%s" % (r0.split(":")[1].strip(), kind_of(r0))
-    if r0.startswith("crash:"):
-        return "pred=Total crash=%s" % ":".join(r0.split(":")[1:3])
-    return "pred=Total res=%s step=%s" % (r0, step)
+    if r0.startswith("crash:stack-overflow"):
+        return "pred=Total crash=stack-overflow table=%s" % tags_of(ev)
+    return "pred=Total exhaustion table=%s" % tags_of(ev)
 
 
 def recheck(c, ev):
-    """re-run one execution alone (up to 3 times); returns (signature, result) or None when it does not reproduce"""
+    """re-run one execution alone, three times; returns (signature, result) when every run fails, else None"""
     import subprocess
     outcomes = []
     for _ in range(3):
         try:
             p = subprocess.run(["sh", "-c", 'ulimit -v 8000000; exec "$0" fault one "$1" "$2"', c.vhbin, ev["font"], json.dumps(ev["plan"])],
-                               stdout=subprocess.PIPE, stderr=subprocess.PIPE, text=True, timeout=120, env=c.env({"GOMAXPROCS": "2", "GOMEMLIMIT": "3GiB"}))
+                               stdout=subprocess.PIPE, stderr=subprocess.PIPE, text=True, timeout=90, env=c.env({"GOMAXPROCS": "2", "GOMEMLIMIT": "3GiB"}))
         except subprocess.TimeoutExpired:
-            outcomes.append(("pred=Total res=timeout step=process", "no result within 120 s"))
+            outcomes.append((sig_of_result("timeout", "process", ev), "no result within 90 s"))
             continue
         if p.returncode == 0 and p.stdout.strip().startswith("{"):
             e = json.loads(p.stdout)
+            e["tags"] = ev.get("tags") or e.get("tags")
             bad = next(((s["name"], s["res"]) for s in e["steps"] if s["res"] not in ("ok", "err")), None)
             if bad is None:
                 if e["allockb"] > 64 * (e["size"] // 1024 + 1) + 65536:
-                    outcomes.append(("pred=AllocBound table=" + ",".join(sorted(set(e.get("tags", [])))), "alloc %d KiB" % e["allockb"]))
+                    outcomes.append(("pred=AllocBound table=" + tags_of(e), "live heap grew by %d KiB" % e["allockb"]))
                 else:
                     outcomes.append(None)
             else:
-                outcomes.append((sig_of_result(bad[1], bad[0]), bad[1]))
+                outcomes.append((sig_of_result(bad[1], bad[0], e), bad[1]))
         else:
             es = p.stderr
-            kind = "stack-overflow" if ("stack overflow" in es or "goroutine stack exceeds" in es) else ("oom" if ("out of memory" in es or "cannot allocate" in es) else "signal")
-            site = ""
-            for l in es.split("\n"):
-                l = l.strip()
-                if l.startswith("github.com/go-text/typesetting/"):
-                    site = l[len("github.com/go-text/typesetting/"):]
-                    site = site[:site.rfind("(")] if "(" in site else site
-                    break
-            outcomes.append(("pred=Total crash=%s:%s" % (kind, site), es[-200:].replace("\n", " | ")))
+            if "stack overflow" in es or "goroutine stack exceeds" in es:
+                outcomes.append((sig_of_result("crash:stack-overflow", "process", ev), es[-200:].replace("\n", " | ")))
+            else:
+                outcomes.append((sig_of_result("crash:oom", "process", ev), es[-200:].replace("\n", " | ")))
     real = [o for o in outcomes if o is not None]
     if len(real) < 3:
-        return None      # did not reproduce three times
+        return None
     return real[0]
 
 
@@ -102,19 +105,17 @@ def run(c, a):
                 if f["pred"] == "Total":
                     for s in ev["steps"]:
                         if s["res"] not in ("ok", "err"):
-                            prelim.setdefault(sig_of_result(s["res"], s["name"]), []).append((ev, s["name"], s["res"]))
+                            prelim.setdefault(sig_of_result(s["res"], s["name"], ev), []).append((ev, s["name"], s["res"]))
                             break
                 elif f["pred"] == "AllocBound":
-                    site = next((x["res"].split(":")[1].strip() for x in ev["steps"] if x["res"].startswith("panic:")), "")
-                    where = ("site=" + site) if site else ("table=" + ",".join(sorted(set(ev.get("tags", [])))))
-                    prelim.setdefault("pred=AllocBound " + where, []).append((ev, "", "alloc %d KiB for a %d byte file" % (ev["allockb"], ev["size"])))
+                    prelim.setdefault("pred=AllocBound table=" + tags_of(ev), []).append((ev, "", "live heap grew by %d KiB for a %d byte file" % (ev["allockb"], ev["size"])))
                 else:
                     prelim.setdefault("pred=%s" % f["pred"], []).append((ev, "", str(ev["raw"])[:300]))
     # Timeouts and dead workers are only believed when they reproduce in isolation (a loaded machine must not raise alarms);
     # the isolated run also gives the definitive classification (a time-out under load is usually an allocation storm).
     dropped = 0
     for sig, items in sorted(prelim.items()):
-        if sig.startswith("pred=Total res=timeout") or sig.startswith("pred=Total crash="):
+        if sig.startswith("pred=Total exhaustion") or sig.startswith("pred=Total crash="):
             for ev, step, r0 in items[:3]:
                 final = recheck(c, ev)
                 if final is None:
